@@ -185,6 +185,43 @@ def defaults_corner_document() -> dict:
     return gen.mkdoc(schemas=schemas, paths=paths, title="Defaults corner")
 
 
+def signature_corner_document() -> dict:
+    """Positional path parameters of kinds that could carry an implicit default (single-member enums, consts, booleans), before and after ordinary ones;
+    the same kinds as required keyword parameters; models whose required properties are of those kinds."""
+    S = {"type": "string"}
+    one = {"type": "string", "enum": ["v2"]}
+    ione = {"type": "integer", "enum": [1]}
+    ok = {"200": {"description": "d"}}
+    P = lambda n, sch, loc="path": {"name": n, "in": loc, "required": True, "schema": sch}
+    paths = {
+        "/{version}/pets/{petId}": {"get": {"operationId": "enumFirst", "parameters": [P("version", one), P("petId", {"type": "integer"})], "responses": ok}},
+        "/pets/{petId}/{version}": {"get": {"operationId": "enumLast", "parameters": [P("petId", {"type": "integer"}), P("version", one)], "responses": ok}},
+        "/{a}/{b}/{c}": {"get": {"operationId": "enumMiddle", "parameters": [P("a", S), P("b", ione), P("c", {"type": "boolean"})], "responses": ok}},
+        "/{k}/c/{id}": {"get": {"operationId": "constFirst", "parameters": [P("k", {"const": "only"}), P("id", S)], "responses": ok}},
+        "/{n}/n/{id}": {"get": {"operationId": "nullableEnumFirst", "parameters": [P("n", {"type": "string", "enum": ["x", "y"]}), P("id", {"type": "string", "format": "uuid"})], "responses": ok}},
+        "/q/{id}": {"get": {"operationId": "requiredKeywordEnums", "parameters": [P("id", S), P("mode", one, "query"), P("lvl", ione, "query"), P("X-V", one, "header"), P("ck", one, "cookie"), P("z", S, "query")],
+                            "responses": ok}},
+    }
+    schemas = {"Versioned": {"type": "object", "required": ["version", "name", "lvl"], "properties": {"version": one, "name": S, "lvl": ione, "opt": one}},
+               "VersionedKid": {"allOf": [{"$ref": "#/components/schemas/Versioned"}, {"type": "object", "required": ["more"], "properties": {"more": S, "kind": {"type": "string", "enum": ["k"]}}}]}}
+    return gen.mkdoc(schemas=schemas, paths=paths, title="Signature corner")
+
+
+def renamed_redefined_document() -> dict:
+    """Two properties that derive one Python name (so both keep their spelling as written), one of which an allOf child redefines with a type that
+    replaces the property object (untyped -> typed, string -> date-time / date / binary, number -> integer); the redefinition is the child's last property."""
+    S = {"type": "string"}
+    R = lambda n: {"$ref": f"#/components/schemas/{n}"}
+    schemas = {}
+    for i, (base, refined) in enumerate([(S, {"type": "string", "format": "date-time"}), ({}, S), ({"type": "number"}, {"type": "integer"}), (S, {"type": "string", "format": "date"}),
+                                         (S, {"type": "string", "format": "binary"}), (S, {"type": "string", "enum": ["a", "b"]})]):
+        schemas[f"Audit{i}"] = {"type": "object", "properties": {"createdAt": base, "created_at": S, "id": {"type": "integer"}}}
+        schemas[f"AuditEvent{i}"] = {"allOf": [R(f"Audit{i}"), {"type": "object", "properties": {"createdAt": refined}}]}
+        schemas[f"AuditFirst{i}"] = {"allOf": [R(f"Audit{i}"), {"type": "object", "properties": {"createdAt": refined, "zz": S}}]}
+        schemas[f"AuditSnake{i}"] = {"allOf": [R(f"Audit{i}"), {"type": "object", "properties": {"created_at": refined}}]}
+    return gen.mkdoc(schemas=schemas, title="Renamed redefined")
+
+
 def consts_document() -> dict:
     """const schemas (typing.Literal) in every position of an operation's signature and of a model."""
     c = lambda v: {"const": v}
@@ -280,6 +317,8 @@ def run(rep) -> None:
             docs[f"title-{ti}"] = gen.mkdoc({"T": {"type": "object", "properties": {"v": {"type": "string"}}}},
                                              {"/t": {"get": {"operationId": "t", "responses": {"200": {"description": "d", "content": {"application/json": {"schema": {"$ref": "#/components/schemas/T"}}}}}}}}, title=title)
         docs["consts"] = consts_document()
+        docs["signature-corner"] = signature_corner_document()
+        docs["renamed-redefined"] = renamed_redefined_document()
         docs["shared-names-failing"] = shared_names_with_failing_document()
         docs["typing-named"] = typing_named_document()
         docs["nonfinite-defaults"] = nonfinite_defaults_document()
